@@ -21,6 +21,21 @@ PROPS = {
         "level_text": "Seeded exploration of BiMap operation histories (all six mutators plus construction, over an alphabet with falsy symbols so that key/value collisions are frequent) with the complete public observation compared to a textbook two-dict model after every step. Histories, not single calls, are what the property quantifies over; exploration is the level a sampled history space supports.",
         "level_note": "Trusted: the 20-line reference model in props/c18.py. Alphabet excludes None and bools (None is the implementation's 'absent' sentinel for get_left/get_right; True == 1 as a dict key).",
     },
+    "C19": {
+        "engine": "D", "level": "exploration",
+        "tiers": {"quick": {"batches": 16, "runs": 1500, "budget_s": 40, "floor_runs": 4000},
+                  "thorough": {"batches": 64, "runs": 12000, "budget_s": 400, "floor_runs": 100000}},
+        "rule": "one run = 1-4 shots, each a seeded log of append(tag, value) steps mixing whole-register and indexed "
+                "writes to the same three registers (ints, bools, lists, optionally non-bits / nested lists / tags that "
+                "do not fit the pattern); after every append to_register_bits is compared with a replay of the log into "
+                "a register file, then the multi-shot queries under all four strictness flag pairs and the collation "
+                "queries; non-trivial = >= 2 appends; distinct = distinct event-log digests",
+        "real": ["hugr.qsystem.result.QsysShot / QsysResult"], "stub": ["pytket conversion (not installed; not exercised)"],
+        "expected_probes": ["whole_after_indexed", "bool_bit", "strict_reject", "names_differ", "lengths_differ"],
+        "technique": "seeded write-log histories replayed into a reference register file (log-replay oracle) after every append; choice-trace minimisation; fresh-interpreter replay",
+        "level_text": "A shot is an ordered log of writes and the statement defines the result as replaying that log; the check generates logs step by step and compares the real conversion with a reference register file after every append, then the multi-shot aggregations under every strictness flag pair. There are no faults, clocks or interleavings here (single actor) - what is simulated is ordering inside a history, the weakest fit of the technique among the claimed properties, stated as such in DESIGN.md.",
+        "level_note": "Trusted: the reference replay in props/c19.py and the documented tag pattern. A non-bit value that a later entry with the same tag supersedes is ambiguous under the statement; both outcomes are accepted there (counted by a probe).",
+    },
 }
 
 
@@ -29,7 +44,7 @@ def tier_cfg(prop: str, tier: str) -> dict:
 
 
 ENGINES = [
-    {"name": "D", "path": "hugrsim/props/c18.py", "serves_properties": ["C18"],
+    {"name": "D", "path": "hugrsim/props/c18.py, c19.py, c15.py", "serves_properties": ["C18", "C19", "C15"],
      "kind_free_text": "small state machines: seeded operation histories vs sequential reference models"},
 ]
 
